@@ -15,6 +15,7 @@ package rsync
 // No wall-clock value is ever part of the diffed output.
 
 import (
+	"hash/fnv"
 	"fmt"
 	"strings"
 	"sync"
@@ -286,18 +287,95 @@ func c34SeqA(rep *vfReport, r *vfRng, n int) (ops, out []string) {
 	return
 }
 
+// c34Directed: several BLOCKING writers (and optionally a blocking reader) park behind
+// 1-3 readers; when the last reader leaves exactly one writer may be admitted, the others
+// only after it has released. "Returned although it must still be blocked" can never be a
+// timing artefact: the correct code cannot return at all before the release.
+func c34Directed(rep *vfReport, r *vfRng) (ops, out []string) {
+	m := NewMultiRSW()
+	ops = append(ops, "reset")
+	out = append(out, "ok")
+	emit := func(op, res string) {
+		ops = append(ops, op)
+		out = append(out, res)
+	}
+	replay := func() map[string]interface{} { return map[string]interface{}{"ops": append([]string(nil), ops...)} }
+	nR := 1 + r.Intn(3)
+	nW := 2 + r.Intn(2)
+	for i := 0; i < nR; i++ {
+		emit("m.br", c34Call(m.BeginRead))
+	}
+	done := make(chan int, nW)
+	for w := 0; w < nW; w++ {
+		go func(w int) { m.BeginWriteBlocking("blk"); done <- w }(w)
+	}
+	time.Sleep(time.Duration(500+r.Intn(1500)) * time.Microsecond) // let them park
+	admitted := 0
+	probeBlocked := func(n int, why string) {
+		// n writers must still be blocked
+		t := time.NewTimer(4 * time.Millisecond)
+		defer t.Stop()
+		for k := 0; k < n; k++ {
+			select {
+			case <-done:
+				admitted++
+				emit("m.bwb "+vfHex("blk"), "ok")
+				rep.Fail("mrsw-blocking-writer-admitted-with-holders", why, replay())
+			case <-t.C:
+				for ; k < n; k++ {
+					emit("m.bwb "+vfHex("blk"), "blocked")
+				}
+				return
+			}
+		}
+	}
+	probeBlocked(nW, fmt.Sprintf("a blocking writer returned while %d readers held the lock", nR))
+	for i := 0; i < nR; i++ {
+		emit("m.er", c34Call(func() error { m.EndRead(); return nil }))
+		if i < nR-1 {
+			probeBlocked(nW-admitted, fmt.Sprintf("a blocking writer returned while %d readers still held the lock", nR-1-i))
+		}
+	}
+	for admitted < nW {
+		select {
+		case <-done:
+			admitted++
+			emit("m.bwb "+vfHex("blk"), "ok")
+		case <-time.After(20 * time.Second):
+			rep.Fail("mrsw-blocked-acquirer-never-proceeds", "a parked blocking writer did not return within 20 s after the holders released", replay())
+			return
+		}
+		probeBlocked(nW-admitted, "a second blocking writer was admitted while the first one held the write lock")
+		emit("m.ew", c34Call(func() error { m.EndWrite(); return nil }))
+	}
+	emit("m.state", fmt.Sprintf("%s %d", vfHex(m.owner), m.numReaders))
+	return
+}
+
 func TestVerifC34(t *testing.T) {
 	rep := vfNewReport("C34", "A: generated sequential op sequences (40-200 ops) over CheckAndSet, MultiRSW (try and blocking acquires, releases incl. protocol violations, upgrade) and ReadyTarget (subscribe/unsubscribe/signal/reset over indices 0-11), diffed exactly, non-trivial when a conflict, a really blocked acquirer and a woken waiter all occurred; B: concurrent runs with 2-4 goroutines per primitive and critical-section instrumentation")
 	defer rep.Write()
+	// checkpoint: findings so far plus a crash marker are on disk while goroutines that could
+	// panic the process are running; the final Write (deferred) replaces it
+	checkpoint := func() {
+		n := len(rep.OracleFailures)
+		rep.OracleFailures = append(rep.OracleFailures, vfOracleFailure{"process-crashed-during-run", "the test process ended before the run finished (panic in a non-test goroutine)", nil})
+		rep.Write()
+		rep.OracleFailures = rep.OracleFailures[:n]
+	}
 	r := vfNewRng(34)
 	var allOps, allImpl [][]string
-	nA := vfScale(300, 6000)
+	nA := vfScale(300, 30000)
 	for i := 0; i < nA; i++ {
 		ops, out := c34SeqA(rep, r, 40+r.Intn(vfScale(161, 400)))
 		allOps = append(allOps, ops)
 		allImpl = append(allImpl, out)
 		j := strings.Join(out, " ")
-		rep.Case(strings.Join(ops, ";"), strings.Contains(j, "conflict") && strings.Contains(j, "blocked") && strings.Contains(j, "true"))
+		if len(allOps) >= 2000 { // compare in chunks (memory, thorough tier)
+			rep.vfCompareSegments("rsync", allOps, allImpl)
+			allOps, allImpl = nil, nil
+		}
+		rep.Case(c34Key(ops), strings.Contains(j, "conflict") && strings.Contains(j, "blocked") && strings.Contains(j, "true"))
 		for _, k := range []string{"conflict", "blocked", "panic"} {
 			rep.CountN("A:"+k, strings.Count(j, k))
 		}
@@ -306,9 +384,21 @@ func TestVerifC34(t *testing.T) {
 		}
 	}
 
+	checkpoint()
+	// ---- directed: parked blocking writers ----------------------------------------
+	nD := vfScale(40, 1500)
+	for i := 0; i < nD; i++ {
+		ops, out := c34Directed(rep, r)
+		allOps = append(allOps, ops)
+		allImpl = append(allImpl, out)
+		rep.Case("D:"+c34Key(ops), true)
+		rep.Count("D:parked-writer-scenarios")
+	}
+
 	// ---- B: concurrent runs ------------------------------------------------------
-	nB := vfScale(40, 800)
+	nB := vfScale(40, 2500)
 	for run := 0; run < nB; run++ {
+		checkpoint()
 		g := 2 + r.Intn(3)
 		iters := vfScale(150, 400)
 		seeds := make([]uint64, g)
@@ -487,4 +577,14 @@ func TestVerifC34(t *testing.T) {
 	}
 
 	rep.vfCompareSegments("rsync", allOps, allImpl)
+}
+
+// c34Key identifies an op sequence by a 64-bit hash (keeps the distinct-case set small).
+func c34Key(ops []string) string {
+	h := fnv.New64a()
+	for _, o := range ops {
+		h.Write([]byte(o))
+		h.Write([]byte{'\n'})
+	}
+	return fmt.Sprintf("%016x", h.Sum64())
 }
